@@ -3,24 +3,96 @@ import OxiVerif.Lemmas.C28
 # C28 — outlines written are navigable as authored (ISO 32000-1 §12.3.3, Tables 152/153)
 
 `Impl.write` is the transcription of `write_outline_tree` / `write_outline_item` /
-`outline_item_to_dict`; `Spec.write` is the link graph the authored forest denotes under the
-same (pre-order) id assignment: every `/Prev /Next /First /Last` is the id *given to* that
-sibling / child, `/Count` is Table 153's.  All statements are for every forest (any nesting,
-width, open/closed flags), every id pool and every root id.
+`outline_sibling_ids` / `outline_item_to_dict`; `Spec.write` is the link graph the authored
+forest denotes under the same (pre-order) id assignment: every `/Prev /Next /First /Last` is the
+id *given to* that sibling / child, `/Count` is Table 153's.  All statements are for every forest
+(any nesting, width, open/closed flags), every id pool and every root id.
 
-/- FULL (false of the current code — see the two witnesses):
-   theorem C28_write (r : Nat) (pool : List Nat) (items : List Item) :
-     Impl.write r pool items = Spec.write r pool items -/
+`ImplOld.write` / `Item.countEntryOld` transcribe the code before the two repairs (C28-F1:
+sibling ids looked up by position; C28-F2: closed `/Count` = minus all descendants).  The two
+witnesses show that the full statement was false of that code — the regressions this check
+must keep catching.
 -/
 namespace OxiVerif.C28
 
-/-- Full statement on the class where it holds: in every sibling list only the last item has
+/-- FULL statement: the written link graph (root entries, every item's five links, every
+`/Count`) is the one the authored forest denotes — for **every** forest. -/
+theorem C28_write (r : Nat) (pool : List Nat) (items : List Item) :
+    Impl.write r pool items = Spec.write r pool items := by
+  unfold Impl.write Spec.write
+  rw [writeTreeN_eq]
+  have : Item.countEntry = Spec.countEntry := funext countEntry_eq
+  rw [this]
+
+-- non-vacuity: branching non-last siblings, closed over closed, three levels
+example :
+    let g := Impl.write 0 [1, 2, 3, 4, 5, 6]
+      [.mk false [.mk false [.mk true []], .mk true []], .mk true [.mk true []]]
+    g.2.map (·.next) = [some 5, some 4, none, none, none, none] ∧
+    g.2.map (·.prev) = [none, none, none, some 2, some 1, none] ∧
+    g.2.map (·.last) = [some 4, some 3, none, none, some 6, none] ∧
+    g.2.map (·.count) = [some (-2), some (-1), none, none, some 1, none] ∧
+    g.1.last = some 5 := by decide
+
+/-- Links alone (whatever is put into `/Count`): `outline_sibling_ids` hands every sibling the
+id it was given, on every forest. -/
+theorem C28_links (cnt : Item → Option Int) (r : Nat) (pool : List Nat) (items : List Item) :
+    writeTreeN cnt r pool items = writeTree posTrue cnt r pool items :=
+  writeTreeN_eq cnt r pool items
+
+example : (writeTreeN (fun _ => none) 7 [1, 2, 3] [.mk true [.mk true []], .mk true []]).1.last
+    = some 3 := by decide
+
+/-- the ids `outline_sibling_ids` returns: sibling `j` sits after the whole subtrees of the
+siblings before it -/
+theorem C28_sibling_ids (pool : List Nat) (idx : Nat) (sibs : List Item) (j : Nat)
+    (hj : j < sibs.length) :
+    idAt (siblingIds pool idx sibs) j = at' pool (idx + sizeList (sibs.take j)) :=
+  siblingIds_idAt pool idx sibs j hj
+
+example : siblingIds [10, 11, 12, 13] 0 [.mk true [.mk true [], .mk true []], .mk true []]
+    = [10, 13] := by decide
+
+/-- `/Count` of every item is Table 153's: absent without children, the number of visible
+descendants when open, minus the number of descendants shown on opening when closed. -/
+theorem C28_count (it : Item) : it.countEntry = Spec.countEntry it := countEntry_eq it
+
+example : (Item.mk false [.mk false [.mk true []], .mk true [.mk true []]]).countEntry
+    = some (-3) := by decide
+
+/-- the root's `/Count` is the number of visible items, on every forest -/
+theorem C28_root_count (r : Nat) (pool : List Nat) (items : List Item) (h : items ≠ []) :
+    (Impl.write r pool items).1.count = some (Int.ofNat (visibleList items)) := by
+  cases items with
+  | nil => exact absurd rfl h
+  | cons c cs => simp [Impl.write, writeTreeN]
+
+example : (Impl.write 0 [1, 2, 3] [.mk false [.mk true []], .mk true []]).1.count = some 2 := by
+  decide
+
+/-- Every item is written under its own object number: the items' ids are exactly the reserved
+pool in pre-order, hence pairwise distinct. -/
+theorem C28_ids_distinct (r : Nat) (pool : List Nat) (items : List Item)
+    (hlen : pool.length = sizeList items) (hnd : pool.Nodup) :
+    (Impl.write r pool items).2.map (·.id) = pool ∧
+    ((Impl.write r pool items).2.map (·.id)).Nodup := by
+  have : (Impl.write r pool items).2.map (·.id) = pool := by
+    rw [Impl.write, writeTreeN_eq]
+    exact ids_write posTrue Item.countEntry r pool items hlen
+  exact ⟨this, by rw [this]; exact hnd⟩
+
+example : (Impl.write 0 [4, 5, 6] [.mk true [.mk true []], .mk true []]).2.map (·.id) = [4, 5, 6] := by
+  decide
+
+/-! ## the code before the repairs -/
+
+/-- Where the unrepaired code was right: in every sibling list only the last item has
 children (so `first_idx + j` is where sibling `j` really is) and no closed item has a closed
 item with children below it (so "all descendants" = "descendants shown when opened"). -/
-theorem C28_write_partial (r : Nat) (pool : List Nat) (items : List Item)
+theorem C28_old_write_partial (r : Nat) (pool : List Nat) (items : List Item)
     (h : goodList countOk items = true) :
-    Impl.write r pool items = Spec.write r pool items := by
-  unfold Impl.write Spec.write writeTree
+    ImplOld.write r pool items = Spec.write r pool items := by
+  unfold ImplOld.write Spec.write writeTree
   by_cases he : items.isEmpty = true
   · simp [he]
   · simp only [he]
@@ -29,86 +101,34 @@ theorem C28_write_partial (r : Nat) (pool : List Nat) (items : List Item)
         cases items with
         | nil => simp at he
         | cons _ _ => simp)
-    rw [emitList_congr countOk Item.countEntry Spec.countEntry countEntry_eq_of_ok pool r 0
+    rw [emitList_congr countOk Item.countEntryOld Spec.countEntry countEntryOld_eq_of_ok pool r 0
       items.length items h rfl 0 0 items h (by omega)]
     simp [hpos, posCode]
 
--- non-vacuity: a chain-shaped forest with nesting, closed items and several siblings
 example : goodList countOk
     [.mk true [], .mk false [], .mk false [.mk true [], .mk true [.mk true []]]] = true := by decide
 
-/-- Links alone (whatever is put into `/Count`): right on every forest in which only the last
-item of each sibling list has children. -/
-theorem C28_links_partial (cnt : Item → Option Int) (r : Nat) (pool : List Nat)
-    (items : List Item) (h : goodList (fun _ => true) items = true) :
-    writeTree posCode cnt r pool items = writeTree posTrue cnt r pool items := by
-  unfold writeTree
-  by_cases he : items.isEmpty = true
-  · simp [he]
-  · simp only [he]
-    have hpos : posTrue items (items.length - 1) = items.length - 1 :=
-      posTrue_eq_of_good _ items h _ (by
-        cases items with
-        | nil => simp at he
-        | cons _ _ => simp)
-    rw [emitList_congr (fun _ => true) cnt cnt (fun _ _ => rfl) pool r 0
-      items.length items h rfl 0 0 items h (by omega)]
-    simp [hpos, posCode]
-
-example : goodList (fun _ => true)
-    [.mk true [], .mk false [.mk false [], .mk false [.mk true []]]] = true := by decide
-
-/-- `/Count` of one item: Table 153's whenever the item is open or nothing below it is closed;
-absent exactly for items without children. -/
-theorem C28_count_partial (it : Item) (h : it.isOpen = true ∨ fullOpenList it.children = true) :
-    it.countEntry = Spec.countEntry it :=
-  countEntry_eq_of_ok it (by simpa [countOk] using h)
-
-example : (Item.mk false [.mk true [.mk true []]]).countEntry = some (-2) := by decide
-
-/-- the root's `/Count` is the number of visible items, on every forest -/
-theorem C28_root_count (r : Nat) (pool : List Nat) (items : List Item) (h : items ≠ []) :
-    (Impl.write r pool items).1.count = some (Int.ofNat (visibleList items)) := by
-  cases items with
-  | nil => exact absurd rfl h
-  | cons c cs => simp [Impl.write, writeTree]
-
-example : (Impl.write 0 [1, 2, 3] [.mk false [.mk true []], .mk true []]).1.count = some 2 := by
-  decide
-
-/-- Every item is written under its own object number: the items' ids are exactly the reserved
-pool in pre-order, hence pairwise distinct — on **every** forest (this part of the writer is
-right even where the sibling links are not). -/
-theorem C28_ids_distinct (r : Nat) (pool : List Nat) (items : List Item)
-    (hlen : pool.length = sizeList items) (hnd : pool.Nodup) :
-    (Impl.write r pool items).2.map (·.id) = pool ∧
-    ((Impl.write r pool items).2.map (·.id)).Nodup := by
-  have := ids_write posCode Item.countEntry r pool items hlen
-  exact ⟨this, by rw [Impl.write, this]; exact hnd⟩
-
-example : (Impl.write 0 [4, 5, 6] [.mk true [.mk true []], .mk true []]).2.map (·.id) = [4, 5, 6] := by
-  decide
-
-/-- Counter-witness 1 (links): roots `[A[a1], B]`, pool 1,2,3.  The code writes
+/-- Counter-witness 1 (links, unrepaired code): roots `[A[a1], B]`, pool 1,2,3.  It wrote
 `A./Next = 2` (= a1) and root `/Last = 2`; the authored forest has `A./Next = B = 3`,
-`/Last = 3`. -/
+`/Last = 3` — which is what the code writes now. -/
 theorem C28_witness_next_last :
     let f := [Item.mk true [.mk true []], .mk true []]
-    ((Impl.write 0 [1, 2, 3] f).2.map (·.next)) = [some 2, none, none] ∧
+    ((ImplOld.write 0 [1, 2, 3] f).2.map (·.next)) = [some 2, none, none] ∧
     ((Spec.write 0 [1, 2, 3] f).2.map (·.next)) = [some 3, none, none] ∧
-    (Impl.write 0 [1, 2, 3] f).1.last = some 2 ∧ (Spec.write 0 [1, 2, 3] f).1.last = some 3 ∧
+    (ImplOld.write 0 [1, 2, 3] f).1.last = some 2 ∧ (Spec.write 0 [1, 2, 3] f).1.last = some 3 ∧
+    ((Impl.write 0 [1, 2, 3] f).2.map (·.next)) = [some 3, none, none] ∧
     ¬ (∀ (r : Nat) (pool : List Nat) (items : List Item),
-        Impl.write r pool items = Spec.write r pool items) := by
-  refine ⟨by decide, by decide, by decide, by decide, fun h => ?_⟩
+        ImplOld.write r pool items = Spec.write r pool items) := by
+  refine ⟨by decide, by decide, by decide, by decide, by decide, fun h => ?_⟩
   have := h 0 [1, 2, 3] [Item.mk true [.mk true []], .mk true []]
   revert this
   decide
 
-/-- Counter-witness 2 (counts): closed `A[ closed B[ c ] ]`.  Opening A shows only B, so
-Table 153 gives `A./Count = −1`; the code writes `−(all descendants) = −2`. -/
+/-- Counter-witness 2 (counts, unrepaired code): closed `A[ closed B[ c ] ]`.  Opening A shows
+only B, so Table 153 gives `A./Count = −1`; the code wrote `−(all descendants) = −2`. -/
 theorem C28_witness_closed_count :
     let a := Item.mk false [.mk false [.mk true []]]
-    a.countEntry = some (-2) ∧ Spec.countEntry a = some (-1) := by
+    a.countEntryOld = some (-2) ∧ Spec.countEntry a = some (-1) ∧ a.countEntry = some (-1) := by
   decide
 
 end OxiVerif.C28
